@@ -102,36 +102,98 @@ Definition ex_e3 : cevent := {| e_uid := 3; e_block := 5; e_index := 0; e_conv :
 Definition ex_fake : cevent := {| e_uid := 99; e_block := 5; e_index := 0; e_conv := Some {| m_sender := 77; m_cl := 0; m_p0 := 1; m_tok := None |} |}.
 Definition ex_ans : mc_ans := McRes [COk [VBytes (Some 3)]; COk [VBytes (Some 4)]; COk [VNum (Some 8)]].
 Definition ex_hdr : header := {| h_ts := 1000; h_height := 100 |}.
-Definition ex_pg : nat -> Z -> page_ans := fun _ s => if s =? 0 then Page [ex_e1; ex_e2; ex_e3] 3 else Page [] s.
+(* the three events as handleUnconfirmedEvents keeps them (the batch fetchEvents is about to hand over) *)
+Definition ex_u (e : cevent) (ch : option tokinfo) : uevent :=
+  {| u_ev := e; u_msg := match e_conv e with Some m => m | None => {| m_sender := 0; m_cl := 0; m_p0 := 0; m_tok := None |} end; u_chain := ch |}.
+Definition ex_s0 : wstate :=
+  {| w_from := 3; w_inflight := Some [ex_u ex_e1 None; ex_u ex_e2 None; ex_u ex_e3 (Some ex_ti)]; w_pending := []; w_enabled := false; w_dead := false |}.
 Definition ex_hd : Z -> option header := fun b => if b =? 5 then Some ex_hdr else None.
 Definition ex_r : reobs_in :=
   {| r_chain := 255; r_txlen := 32; r_status := Some (Some 5);
      r_events := Some [ {| t_addr := 11; t_ev := ex_fake |}; {| t_addr := 10; t_ev := ex_e1 |} ];
      r_hd := ex_hd; r_tok := fun _ => ex_ans; r_mc := Some true; r_height := Some 120; r_now := 1000 + 205 * 16000 |}.
 Definition ex_ops : list op :=
-  [ OPoll (Some 3) ex_pg (fun _ => ex_ans); ODeliver; OTick 120 (1000 + 205 * 16000 - 1) (fun _ => Some true) ex_hd;
+  [ ODeliver; OTick 120 (1000 + 205 * 16000 - 1) (fun _ => Some true) ex_hd;
     OTick 120 (1000 + 205 * 16000) (fun _ => Some true) ex_hd; OReobs ex_r ].
 Definition ex_EP (e : cevent) : Prop := e_uid e = 1 \/ e_uid e = 2 \/ e_uid e = 3.
 Definition ex_HP (b : Z) (h : header) : Prop := b = 5 /\ h = ex_hdr.
 Definition ex_AP (a : mc_ans) : Prop := a = ex_ans.
 
-(* the node's answers satisfy the provenance predicates; the run forwards the attestation at the first tick (hold 3
-   intervals), the transfer only at the second (205-interval floor on mainnet), never the foreign-sender event 2, and the
-   re-observation forwards event 1 but not the look-alike event 99 of contract 11 *)
+(* the state satisfies the invariant and the node's answers satisfy the provenance predicates; the run forwards the
+   attestation at the first tick (hold 3 intervals), the transfer only at the second (205-interval floor on mainnet), never
+   the foreign-sender event 2, and the re-observation forwards event 1 but not the look-alike event 99 of contract 11 *)
 Example C08_hypotheses_satisfiable :
+  Inv ex_EP ex_HP ex_AP ex_s0 /\
   Forall (op_ok ex_c ex_EP ex_HP ex_AP) ex_ops /\
-  map (fun x => map (fun f => e_uid (f_ev f)) (o_fwd x)) (fst (run ex_c (init 0) ex_ops)) = [[]; []; [3]; [1]; [1]].
+  map (fun x => map (fun f => e_uid (f_ev f)) (o_fwd x)) (fst (run ex_c ex_s0 ex_ops)) = [[]; [3]; [1]; [1]].
 Proof.
+  split.
+  { split; [|constructor]. intros l H. injection H as <-.
+    repeat apply Forall_cons; try apply Forall_nil; (split; [unfold ex_EP; cbn; auto|split; [reflexivity|]]); intro A; try discriminate A.
+    exists ex_ti, ex_ans. repeat apply conj; reflexivity. }
   split; [|vm_compute; reflexivity].
   assert (HH : forall b h, ex_hd b = Some h -> ex_HP b h).
   { intros b h. unfold ex_hd. destruct (b =? 5) eqn:E; [|discriminate]. intro H. injection H as <-. apply Z.eqb_eq in E. split; auto. }
   unfold ex_ops.
-  apply Forall_cons; [|apply Forall_cons; [exact I|apply Forall_cons; [exact HH|apply Forall_cons; [exact HH|apply Forall_cons; [|constructor]]]]].
-  - split; [|intro i; reflexivity]. intros k s evs next. unfold ex_pg. destruct (s =? 0); intro H; injection H as <- <-; [|constructor].
-    repeat apply Forall_cons; try apply Forall_nil; unfold ex_EP; cbn [e_uid ex_e1 ex_e2 ex_e3]; auto.
-  - split; [|split; [exact HH|intro i; reflexivity]]. intros evs H. cbn [r_events ex_r] in H. injection H as <-.
-    apply Forall_cons; [cbn [t_addr ex_c c_gov]; intro H; discriminate H|]. apply Forall_cons; [|apply Forall_nil].
-    intros _. unfold ex_EP. cbn [t_ev e_uid ex_e1]. auto.
+  apply Forall_cons; [exact I|apply Forall_cons; [exact HH|apply Forall_cons; [exact HH|apply Forall_cons; [|constructor]]]].
+  split; [|split; [exact HH|intro i; reflexivity]]. intros evs H. cbn [r_events ex_r] in H. injection H as <-.
+  apply Forall_cons; [cbn [t_addr ex_c c_gov]; intro H; discriminate H|]. apply Forall_cons; [|apply Forall_nil].
+  intros _. unfold ex_EP. cbn [t_ev e_uid ex_e1]. auto.
+Qed.
+
+(* the confirmation test at its boundaries: level 3 needs 3 blocks on top and 3 * 16 s; a mainnet transfer 205 * 16 s *)
+Example C08_confirmed_boundaries :
+  let m := {| m_sender := 77; m_cl := 3; m_p0 := 1; m_tok := None |} in
+  sane_hdr ex_hdr (m_cl m) /\
+  confirmed false m ex_hdr (1000 + 48000) 103 = true /\ confirmed false m ex_hdr (1000 + 48000 - 1) 103 = false /\
+  confirmed false m ex_hdr (1000 + 48000) 102 = false /\
+  confirmed true m ex_hdr (1000 + 205 * 16000) 103 = true /\ confirmed true m ex_hdr (1000 + 205 * 16000 - 1) 103 = false.
+Proof. cbv zeta. split; [unfold sane_hdr; cbn; lia|vm_compute; repeat split; reflexivity]. Qed.
+
+(* the message forwarded at the second tick of the example history is justified, and its header is sane: the hypotheses
+   of C08_meaning_polling_path hold for it *)
+Definition ex_s3 : wstate := final ex_c ex_s0 (firstn 2 ex_ops).
+Example C08_meaning_hypotheses_satisfiable :
+  exists f, o_fwd (snd (step ex_c ex_s3 (OTick 120 (1000 + 205 * 16000) (fun _ => Some true) ex_hd))) = [f] /\
+    justified ex_c ex_EP ex_HP ex_AP (OTick 120 (1000 + 205 * 16000) (fun _ => Some true) ex_hd) f /\ sane_hdr (f_hdr f) (m_cl (f_msg f)) /\
+    e_uid (f_ev f) = 1.
+Proof.
+  destruct C08_hypotheses_satisfiable as (HI & Hok & _).
+  pose proof (C08_safety_from_any_good_state ex_c ex_EP ex_HP ex_AP ex_ops ex_s0 HI Hok) as J.
+  unfold ex_ops in J. cbn [all_justified] in J. destruct J as (_ & _ & J4 & _).
+  change (fst (step ex_c (fst (step ex_c ex_s0 ODeliver)) (OTick 120 (1000 + 205 * 16000 - 1) (fun _ => Some true) ex_hd))) with ex_s3 in J4.
+  remember (o_fwd (snd (step ex_c ex_s3 (OTick 120 (1000 + 205 * 16000) (fun _ => Some true) ex_hd)))) as l eqn:E.
+  assert (E' : map (fun f => (e_uid (f_ev f), h_ts (f_hdr f), h_height (f_hdr f), m_cl (f_msg f))) l = [(1, 1000, 100, 3)]) by (subst l; vm_compute; reflexivity).
+  destruct l as [|f [|g t]]; try discriminate E'. injection E' as E1 E2 E3 E4.
+  exists f. split; [reflexivity|]. inversion J4 as [|x y Jf _]; subst. split; [exact Jf|]. split; [|exact E1].
+  unfold sane_hdr. rewrite E2, E3, E4. lia.
+Qed.
+
+(* and for the re-observation step of that history *)
+Example C08_reobservation_hypotheses_satisfiable :
+  exists f, fst (reobserve ex_c ex_r) = [f] /\ justified ex_c ex_EP ex_HP ex_AP (OReobs ex_r) f /\ sane_hdr (f_hdr f) (m_cl (f_msg f)) /\ e_uid (f_ev f) = 1.
+Proof.
+  destruct C08_hypotheses_satisfiable as (_ & Hok & _).
+  assert (Hr : op_ok ex_c ex_EP ex_HP ex_AP (OReobs ex_r)).
+  { unfold ex_ops in Hok. inversion Hok as [|? ? _ H1]; subst. inversion H1 as [|? ? _ H2]; subst. inversion H2 as [|? ? _ H3]; subst.
+    inversion H3 as [|? ? H5 _]; subst. exact H5. }
+  pose proof (reobserve_just ex_c ex_EP ex_HP ex_AP ex_r Hr) as J.
+  remember (fst (reobserve ex_c ex_r)) as l eqn:E.
+  assert (E' : map (fun f => (e_uid (f_ev f), h_ts (f_hdr f), h_height (f_hdr f), m_cl (f_msg f))) l = [(1, 1000, 100, 3)]) by (subst l; vm_compute; reflexivity).
+  destruct l as [|f [|g t]]; try discriminate E'. injection E' as E1 E2 E3 E4.
+  exists f. split; [reflexivity|]. inversion J as [|x y Jf _]; subst. split; [exact Jf|]. split; [|exact E1].
+  unfold sane_hdr. rewrite E2, E3, E4. lia.
+Qed.
+
+(* the invariant's hypothesis of C08_safety_from_any_good_state and the liveness hypothesis of C08_confirmed_orphans_are_dropped *)
+Example C08_good_state_and_live_tick :
+  Inv ex_EP ex_HP ex_AP ex_s3 /\ w_pending ex_s3 <> [] /\
+  w_dead (fst (step ex_c ex_s3 (OTick 120 0 (fun _ => Some false) ex_hd))) = false.
+Proof.
+  destruct C08_hypotheses_satisfiable as (HI & Hok & _). split; [|split; [vm_compute; discriminate|vm_compute; reflexivity]].
+  unfold ex_s3, ex_ops. cbn [firstn final].
+  unfold ex_ops in Hok. inversion Hok as [|? ? K1 H1]; subst. inversion H1 as [|? ? K2 _]; subst.
+  apply (step_inv ex_c); [|apply op_ok_st_of; exact K2]. apply (step_inv ex_c); [|apply op_ok_st_of; exact K1]. exact HI.
 Qed.
 
 Print Assumptions C08_confirmed_spec.
